@@ -137,10 +137,10 @@ type simAPI struct {
 	beforeColl func()
 	// history of what was put on the wire
 	pagesServed  int
-	lastPage     []string          // uuids of the most recent non-count page
-	everSent     map[string]bool   // uuid -> was in some page
-	toldClasses  map[string]bool   // uuid -> storage_classes_desired was included in some response
-	toldRepl     map[string]bool   // uuid -> replication_desired was included
+	lastPage     []string        // uuids of the most recent non-count page
+	everSent     map[string]bool // uuid -> was in some page
+	toldClasses  map[string]bool // uuid -> storage_classes_desired was included in some response
+	toldRepl     map[string]bool // uuid -> replication_desired was included
 	nullTimeRows int
 }
 
